@@ -4,7 +4,9 @@ package main
 import (
 	"verif/fw"
 
+	_ "verif/harness/c01"
 	_ "verif/harness/c06"
+	_ "verif/harness/c07"
 )
 
 func main() { fw.Main() }
